@@ -10,50 +10,59 @@ EXTENDS Integers, FiniteSets, TLC
 
 CONSTANTS Callers, VMs, MaxCalls,
           PutEarly,     \* mutant: the VM is returned to the pool before the evaluation has finished
-          PutTwice      \* mutant: a failed evaluation returns its VM to the pool twice
+          PutTwice,     \* mutant: a failed evaluation returns its VM to the pool twice
+          NewPanics     \* as found: a VM that cannot be made (the script's top level is run again for every VM and may fail
+                        \* later though it succeeded at start-up) takes the whole process down
 
-VARIABLES free, made, vmOf, pc, busy, ans, calls
-vars == <<free, made, vmOf, pc, busy, ans, calls>>
+VARIABLES free, made, vmOf, pc, busy, ans, calls, crashed
+vars == <<free, made, vmOf, pc, busy, ans, calls, crashed>>
 None == "none"
 
 Init == /\ free = [v \in VMs |-> 0] /\ made = {} /\ vmOf = [c \in Callers |-> None] /\ pc = [c \in Callers |-> "idle"]
-        /\ busy = [v \in VMs |-> FALSE] /\ ans = [c \in Callers |-> "none"] /\ calls = [c \in Callers |-> 0]
+        /\ busy = [v \in VMs |-> FALSE] /\ ans = [c \in Callers |-> "none"] /\ calls = [c \in Callers |-> 0] /\ crashed = FALSE
 
 Get(c) == /\ pc[c] = "idle" /\ calls[c] < MaxCalls
           /\ \/ \E v \in VMs : free[v] > 0 /\ vmOf' = [vmOf EXCEPT ![c] = v] /\ free' = [free EXCEPT ![v] = @ - 1] /\ UNCHANGED made
              \/ \E v \in VMs \ made : vmOf' = [vmOf EXCEPT ![c] = v] /\ made' = made \cup {v} /\ UNCHANGED free
           /\ pc' = [pc EXCEPT ![c] = "got"] /\ calls' = [calls EXCEPT ![c] = @ + 1]
-          /\ UNCHANGED <<busy, ans>>
+          /\ UNCHANGED <<busy, ans, crashed>>
 \* the script sets a VM-global flag on entry ...
 EvalStart(c) == /\ pc[c] = "got"
                 /\ IF busy[vmOf[c]] THEN ans' = [ans EXCEPT ![c] = "race"] /\ UNCHANGED busy
                    ELSE busy' = [busy EXCEPT ![vmOf[c]] = TRUE] /\ ans' = [ans EXCEPT ![c] = "pending"]
                 /\ pc' = [pc EXCEPT ![c] = IF PutEarly THEN "putE" ELSE "eval"]
-                /\ UNCHANGED <<free, made, vmOf, calls>>
+                /\ UNCHANGED <<free, made, vmOf, calls, crashed>>
 \* ... and clears it on exit, answering from the state it kept
 EvalEnd(c) == /\ pc[c] = "eval"
               /\ IF ans[c] = "pending" THEN busy' = [busy EXCEPT ![vmOf[c]] = FALSE] /\ ans' = [ans EXCEPT ![c] = "ok"]
                  ELSE UNCHANGED <<busy, ans>>
               /\ pc' = [pc EXCEPT ![c] = IF PutEarly THEN "idle" ELSE "put"]
-              /\ UNCHANGED <<free, made, vmOf, calls>>
+              /\ UNCHANGED <<free, made, vmOf, calls, crashed>>
 \* the evaluation fails (the script throws after restoring its state): the caller's own error
 EvalFail(c) == /\ pc[c] = "eval" /\ ans[c] = "pending" /\ ~PutEarly
                /\ busy' = [busy EXCEPT ![vmOf[c]] = FALSE] /\ ans' = [ans EXCEPT ![c] = "err"]
                /\ pc' = [pc EXCEPT ![c] = IF PutTwice THEN "put2" ELSE "put"]
-               /\ UNCHANGED <<free, made, vmOf, calls>>
+               /\ UNCHANGED <<free, made, vmOf, calls, crashed>>
 Put(c) == /\ pc[c] \in {"put", "putE", "put2"}
           /\ free' = [free EXCEPT ![vmOf[c]] = @ + 1]
           /\ pc' = [pc EXCEPT ![c] = CASE pc[c] = "putE" -> "eval" [] pc[c] = "put2" -> "put" [] OTHER -> "idle"]
-          /\ UNCHANGED <<made, vmOf, busy, ans, calls>>
-Drop == \E v \in VMs : free[v] > 0 /\ free' = [free EXCEPT ![v] = @ - 1] /\ UNCHANGED <<made, vmOf, pc, busy, ans, calls>>
+          /\ UNCHANGED <<made, vmOf, busy, ans, calls, crashed>>
+Drop == \E v \in VMs : free[v] > 0 /\ free' = [free EXCEPT ![v] = @ - 1] /\ UNCHANGED <<made, vmOf, pc, busy, ans, calls, crashed>>
 
-Next == Drop \/ \E c \in Callers : Get(c) \/ EvalStart(c) \/ EvalEnd(c) \/ EvalFail(c) \/ Put(c)
+\* no idle VM, and a new one cannot be made: this caller's evaluation fails - its own error, nobody else's business
+GetFail(c) == /\ pc[c] = "idle" /\ calls[c] < MaxCalls /\ \A v \in VMs : free[v] = 0
+              /\ calls' = [calls EXCEPT ![c] = @ + 1]
+              /\ IF NewPanics THEN crashed' = TRUE /\ UNCHANGED ans ELSE ans' = [ans EXCEPT ![c] = "err"] /\ UNCHANGED crashed
+              /\ UNCHANGED <<free, made, vmOf, pc, busy>>
+
+Next == Drop \/ \E c \in Callers : GetFail(c) \/ Get(c) \/ EvalStart(c) \/ EvalEnd(c) \/ EvalFail(c) \/ Put(c)
 Spec == Init /\ [][Next]_vars
 
 InEval(c) == pc[c] \in {"got", "eval", "put", "putE"} /\ ~(PutEarly /\ pc[c] = "idle")
 ExclusiveVM == \A c, d \in Callers : c # d /\ pc[c] \in {"got", "eval"} /\ pc[d] \in {"got", "eval"} => vmOf[c] # vmOf[d]
 \* "same answers as if issued one at a time": no evaluation ever observes another one's state
 SequentialAnswers == \A c \in Callers : ans[c] # "race"
+NeverCrashes == ~crashed
 IdleVMsAreClean == \A v \in VMs : free[v] > 0 => PutEarly \/ PutTwice \/ ~busy[v]
 \* a VM is never in the pool more often than once, and never while a caller holds it
 PoolIsASet == \A v \in VMs : /\ free[v] <= 1
